@@ -94,7 +94,10 @@ PROPS["C15"] = dict(
 PROPS["C03"] = dict(
     modules=["Sth.Props.C01", "Sth.Props.C08", "Sth.Props.C03", "Sth.Props.C03Close", "Sth.Props.C03Gc", "Sth.Props.C03GcHist", "Sth.Props.C03Open"],
     theorems=list(CORE_RL) + ['Sth.C03_flush_crash_recovers', 'Sth.C03_flush_crash_against_map', 'Sth.C03_removed_flushed_stays_absent', 'Sth.C03_flushed_unchanged_survives', 'Sth.C03_lastDurable_spec', 'Sth.C03_image_zero', 'Sth.C03_image_full', 'Sth.C03_recovered_store_keeps_working_partial', 'Sth.C03_close_crash_recovers', 'Sth.C03_close_crash_against_map', 'Sth.C03_close_recovered_store_keeps_working_partial', 'Sth.C03_close_images_recover', 'Sth.C03_snapshot_needs_complete_index', 'Sth.C03_igc_interrupted_crash_recovers', 'Sth.C03_pgc_interrupted_crash_recovers', 'Sth.C03_pgc_crash_vs_old_disk', 'Sth.C03_d11_pgc_dirty_index_pool_loses_durable_value', 'Sth.C03_crash_after_gc_history', 'Sth.C03_crash_after_gc_history_against_map', 'Sth.C03_crash_after_gc_history_keeps_working_partial', 'Sth.C03_crash_after_gc_history_cid', 'Sth.C03_flushed_unchanged_survives_gc', 'Sth.C03_removed_flushed_stays_absent_gc', 'Sth.C03_openSteps_last', 'Sth.C03_open_crash_recovers', 'Sth.C03_open_crash_recovers_restarted', 'Sth.C03_open_crash_recovers_durable', 'Sth.C03_open_crash_recovers_close', 'Sth.C03_open_crash_recovers_gc', 'Sth.C03_open_crash_old_or_new', 'Sth.C03_open_crash_first_open'],
-    runs=[dict(engine="crash", quick=48, thorough=2000, nontrivial=["torn", "at:index", "at:primary", "at:freelist", "at:store", "flush-image-interior", "open-image-interior"])],
+    runs=[dict(engine="crash", quick=48, thorough=2000, nontrivial=["torn", "at:index", "at:primary", "at:freelist", "at:store", "flush-image-interior", "open-image-interior"]),
+          # crashes inside an Open that upgrades a legacy store or translates the index to another bucket bit size ("inside Close or Open")
+          dict(engine="crash", quick=10, thorough=300, extra=["-profile", "c10"], nontrivial=["at:upgrade", "at:remap"]),
+          dict(engine="crash", quick=8, thorough=300, extra=["-profile", "c09"], nontrivial=["translate-crash"])],
     shrink_budget=0,   # the workload is the context of the crash oracle (baseline, acknowledged since): it is kept whole
     crash_lines=True,
     rule="sequential workloads on the multihash primary with small files; while every Flush, iteration, Close, reopen and GC cycle "
@@ -116,7 +119,8 @@ PROPS["C03"] = dict(
 PROPS["C05"] = dict(
     modules=["Sth.Props.C01", "Sth.Props.C08", "Sth.Props.C05", "Sth.Props.C05Pools"],
     theorems=list(CORE_RL) + ['Sth.C05_wf_invariant', 'Sth.C05_linearizable', 'Sth.C05_log_faithful', 'Sth.C05_entry_during_call', 'Sth.C05_real_time', 'Sth.C05_owned_keys_no_overlap', 'Sth.C05_linearizable_owned', 'Sth.C05_put_index_publishes', 'Sth.C05_read_your_writes', 'Sth.C05_get_sees_contents', 'Sth.C05_keys_do_not_interfere', 'Sth.C05_frame_step', 'Sth.C05_freelist_exactly_once', 'Sth.C05_no_leak', 'Sth.C05_quiescent_exactly_once', 'Sth.C05_double_free_without_premise', 'Sth.C05_overlap_put_remove_errs', 'Sth.C05_overlap_new_puts_lose_one', 'Sth.C05_overlap_new_puts_not_legal', 'Sth.C05_pools_section_effect', 'Sth.C05_pools_view_invariant', 'Sth.C05_pools_invariant', 'Sth.C05_pools_lockAfterSwap_lost_for_good', 'Sth.C05_pools_lockAfterSwap_temporarily_invisible', 'Sth.C05_pools_lockAfterSwap_rmw_on_stale', 'Sth.C05_pools_skipPools_stale', 'Sth.C05_pools_register', 'Sth.C05_pools_read_your_writes', 'Sth.C05_pools_refines_conc_section', 'Sth.C05_pools_refines_conc_read', 'Sth.C05_pools_refines_conc_run', 'Sth.C05_pools_primary_section_effect', 'Sth.C05_pools_primary_write_once', 'Sth.C05_pools_primary_get', 'Sth.C05_pools_primary_skipPools_eof', 'Sth.C05_pools_primary_lockAfterSwap_wrong_record'],
-    runs=[dict(engine="sched", quick=1000, thorough=20000, extra=["-profile", "c05"], nontrivial=["overlapping-calls", "conc-model-agrees", "pools-model-agrees"])],
+    runs=[dict(engine="sched", quick=1000, thorough=20000, extra=["-profile", "c05"], nontrivial=["overlapping-calls", "conc-model-agrees", "pools-model-agrees"]),
+          dict(engine="res", quick=4, thorough=60, extra=["-profile", "par"], nontrivial=["parallel-lookups"])],
     shrink_budget=0,
     rule="2-3 threads of 1-3 Put/Get/Has/GetSize/Remove calls on 2-4 keys clustered in one or two buckets with shared prefixes, plus a "
          "Flush thread, run on the real store under a cooperative scheduler that parks every thread at named points between the lock "
@@ -237,7 +241,7 @@ PROPS["C17"] = dict(
     theorems=["Sth.Life.C17_close_quiescent", "Sth.Life.C17_returned_recorded", "Sth.Life.C17_no_fs_after_close", "Sth.Life.C17_close_idempotent",
               "Sth.Life.C17_close_waits", "Sth.Life.C17_handshake_before_files", "Sth.Life.C17_no_wait_witness", "Sth.Life.C17_wait_on_witness",
               "Sth.Life.C17_late_start_witness"],
-    runs=[dict(engine="res", quick=96, thorough=5000, nontrivial=["closed-while-cycle-parked", "failopen-idxsize", "failopen-prisize", "failopen-bits+size", "failopen-badjson", "failopen-badprijson", "cycles"])],
+    runs=[dict(engine="res", quick=96, thorough=5000, nontrivial=["closed-while-cycle-parked", "failopen-idxsize", "failopen-prisize", "failopen-bits+size", "failopen-badjson", "failopen-badprijson", "cycles", "reopen-translates", "cycles-translate"])],
     shrink_budget=0,
     rule="real stores with the real background flusher (4 ms) and both collectors (15 ms) over 64/128-byte files: random put/remove "
          "workload, then Close - in half of the runs while a collector cycle or flush is parked by a hook handler at one of 31 named "
@@ -373,7 +377,7 @@ PROPS["C16"] = dict(
 
 # regenerated call-order / shape facts as obligations of the properties that rely on them
 PROPS["C03"]["facts"] = dict(modules=["Sth.Obligations.FactsC03"], theorems=["Sth.Obligations.C03_commit_order", "Sth.Obligations.C03_close_order"])
-PROPS["C05"]["facts"] = dict(modules=["Sth.Obligations.FactsC05"], theorems=["Sth.Obligations.C05_mutators_atomic"])
+PROPS["C05"]["facts"] = dict(modules=["Sth.Obligations.FactsC05", "Sth.Obligations.FactsC05b"], theorems=["Sth.Obligations.C05_mutators_atomic", "Sth.Obligations.C05_data_path_guarded"])
 PROPS["C13"]["facts"] = dict(modules=["Sth.Obligations.FactsC05"], theorems=["Sth.Obligations.C05_mutators_atomic"])
 PROPS["C12"]["facts"] = dict(modules=["Sth.Obligations.FactsC12"], theorems=["Sth.Obligations.C12_flush_paths", "Sth.Obligations.C12_register_atomic"])
 PROPS["C14"]["facts"] = dict(modules=["Sth.Obligations.FactsC14"], theorems=["Sth.Obligations.C14_methods_atomic"])
